@@ -275,6 +275,151 @@ def replay_behaviour(tid, states, producers):
     return w, drift, schedule
 
 
+def _memb(v):
+    return "[p \\in Producers |-> p \\in %s]" % v
+
+
+FLOW_T_PROJ = ("[paused |-> paused, conn |-> conn, deque |-> deque, pset |-> %s, uset |-> %s, sig |-> sig, ipaused |-> %s, "
+               "cpaused |-> cpaused, wantPause |-> %s, open |-> %s, queued |-> queued, unsent |-> unsent]"
+               % tuple(_memb(v) for v in ("pset", "uset", "ipaused", "wantPause", "open")))
+
+
+def walk_projection(w):
+    pr = w.projection()
+    for k in ("pset", "uset", "ipaused", "wantPause", "open"):
+        pr[k] = {p: (p in pr[k]) for p in w.pids}
+    return pr
+
+
+class WalkProd(Prod):
+    """a producer that, when woken, does (re-entrantly, from inside resumeProducing) what the walk's random policy says"""
+
+    def resumeProducing(self):
+        w = self.world
+        self.sig = "resume"
+        self.log.append("resume")
+        if w.outbound._paused:
+            w.resumed_while_paused.append(self.pid)
+        w.turn_order.append(self.pid)
+        w.emit(["LoopStep", self.pid])
+        w.turn_stack.append(self.pid)
+        try:
+            for _ in range(w.rng.choice([0, 0, 1, 1, 2])):
+                if w.turn_stack[-1] != self.pid:
+                    break       # a loop nested inside this turn has run: the turn is over as far as the model is concerned
+                acts = w.enabled(inside=True)
+                if not acts:
+                    break
+                w.step(w.rng.choice(acts))
+        finally:
+            if w.turn_stack and w.turn_stack[-1] == self.pid:
+                w.turn_stack.pop()
+
+
+class WalkConn(FakeConn):
+    def send_record(self, r):
+        self.sent.append(r)
+        w = self.world
+        if getattr(w, "in_app_record", False) or not getattr(w, "in_loop", 0):
+            return          # a record sent straight out by queue_and_send_record (not part of a re-send)
+        full = w.steps < w.max_steps and w.rng.random() < 0.3
+        if full:
+            w.steps += 1
+            w.outbound.pauseProducing()
+        w.emit(["LoopSend", "full" if full else "-"])
+
+
+class WalkWorld(FlowWorld):
+    """Code -> spec for C15: a seeded random walk over the real Outbound / Inbound, every step of the wake-up loop recorded as the
+    real objects take it (producer woken, record re-sent, loop finished), for validation against DilationFlow.tla"""
+
+    def __init__(self, producers, rng, max_steps, max_queued):
+        FlowWorld.__init__(self, producers)
+        self.prod = {p: WalkProd(self, p) for p in self.pids}
+        self.rng, self.max_steps, self.max_queued = rng, max_steps, max_queued
+        self.steps = 0
+        self.lines = []
+        self.turn_stack = []
+        self.in_loop = 0
+        self.schedule = []
+
+    def turn(self):
+        return self.turn_stack[-1] if self.turn_stack else "-"
+
+    def emit(self, la, chk=True):
+        self.schedule.append(list(la))
+        self.lines.append({"a": list(la), "proj": walk_projection(self), "chk": chk})
+
+    def enabled(self, inside=False):
+        ob = self.outbound
+        acts = []
+        if self.conn is not None and self.steps < self.max_steps:
+            acts += [("TransportPause", None), ("TransportResume", None), ("TransportResume", None)]
+        registered = {id(p) for p in ob._all_producers}
+        for p in self.pids:
+            if id(self.prod[p]) not in registered and p in self.open:
+                acts.append(("Register", p))
+            if id(self.prod[p]) in registered:
+                acts.append(("Unregister", p))
+            if p in self.open:
+                acts.append(("SubResume", p) if p in self.want_pause else ("SubPause", p))
+                if self.rng.random() < 0.3:
+                    acts.append(("SubClosed", p))
+        if len(ob._outbound_queue) < self.max_queued:
+            acts.append(("AppRecord", None))
+        if not inside:
+            acts += [("StopUsingConnection", None)] if self.conn is not None else [("UseConnection", None)] * 3
+        return acts
+
+    def step(self, act):
+        name, arg = act
+        ob = self.outbound
+        label = [name, arg if arg is not None else ("-" if name in ("UseConnection", "StopUsingConnection") else self.turn())]
+        if name in ("TransportPause", "TransportResume"):
+            self.steps += 1
+        starts_loop = (name == "TransportResume" and ob._paused) or name == "UseConnection"
+        if starts_loop:
+            # the action's own line first (its post-state is not observable: the loop runs inside the call), then the loop's
+            # steps as the real objects take them, then LoopEnd when the call returns
+            self.emit(label, chk=False)
+            if self.turn_stack:
+                self.turn_stack.append("-")          # a nested loop: nothing acts until it wakes someone
+            self.in_loop += 1
+            try:
+                if name == "UseConnection":
+                    self.conn = WalkConn()
+                    self.conn.world = self
+                    try:
+                        self.inbound.use_connection(self.conn)
+                        ob.use_connection(self.conn)
+                    except Exception as e:
+                        self.errors.append("%s in %s: %s" % (type(e).__name__, name, str(e)[:80]))
+                else:
+                    self.perform((name, arg))
+            finally:
+                self.in_loop -= 1
+            self.emit(["LoopEnd", "-"])
+            return
+        if name == "AppRecord":
+            self.in_app_record = True
+        try:
+            self.perform((name, arg))
+        finally:
+            self.in_app_record = False
+        self.emit(label)
+
+
+def flow_walk(tid, producers, rng, max_steps, max_queued, nsteps=25):
+    w = WalkWorld(producers, rng, max_steps, max_queued)
+    for _ in range(nsteps):
+        acts = w.enabled()
+        if not acts:
+            break
+        w.step(rng.choice(acts))
+        w.checkpoints.append(w.projection())
+    return w
+
+
 def inbound_real_probe():
     """The inbound half on the real L2 object: a subchannel application's pauseProducing() / resumeProducing() must
     stop and restart the reading of the real DilatedConnectionProtocol (Inbound calls connection.pauseProducing()),
@@ -461,6 +606,36 @@ def run(prop, tier):
                 ndrift += 1
                 if len(cov["drift"]) < 6:
                     cov["drift"].append(dict(drift, tid=tid))
+        # code -> spec: seeded random walks over the real Outbound / Inbound, validated by TLC against DilationFlow.tla
+        rng = random.Random(seed * 7919 + 15)
+        tv = {"walks": 0, "accepted": 0, "rejected": [], "lines": 0}
+        for name, consts in (("walk2", dict(Producers={"p1", "p2"}, MaxSteps=10, MaxQueued=3)),
+                             ("walk3", dict(Producers={"p1", "p2", "p3"}, MaxSteps=8, MaxQueued=2))):
+            traces = {}
+            for _ in range(40 if quick else 400):
+                tid += 1
+                w = flow_walk(tid, consts["Producers"], rng, consts["MaxSteps"], consts["MaxQueued"])
+                traces[tid] = w.lines
+                tv["lines"] += len(w.lines)
+                records.append({"tid": tid, "origin": "real-walk", "checkpoints": w.checkpoints, "resumedWhilePaused": w.resumed_while_paused,
+                                "internal": w.errors, "pull": pull, "inboundReal": inreal})
+                meta[tid] = {"schedule": w.schedule, "producers": sorted(consts["Producers"])}
+            res, r = common.trace_validate(wd, "DilationFlow", consts, traces, FLOW_T_PROJ, "MC_C15_trace_" + name)
+            for t, (reached, total) in sorted(res.items()):
+                tv["walks"] += 1
+                if reached == total:
+                    tv["accepted"] += 1
+                else:
+                    ndrift += 1
+                    if len(tv["rejected"]) < 6:
+                        tv["rejected"].append({"tid": t, "config": name, "matched_lines": reached, "of": total,
+                                               "next_line": traces[t][reached] if reached < total else None,
+                                               "schedule": meta[t]["schedule"][:reached + 1]})
+        cov["trace_validation"] = dict(tv, rule="each walk = 25 top-level steps chosen among what the real Outbound/Inbound offer, the "
+                                       "producers acting re-entrantly inside their turns by the same random policy; every iteration of "
+                                       "the wake-up loop is a recorded line (LoopStep / LoopSend / LoopEnd as the real objects take "
+                                       "them); accepted = DilationFlow.tla has a behaviour with the same actions and - wherever the "
+                                       "state is observable - the same projection")
         path = wd.file("obs.ndjson")
         with open(path, "w") as f:
             for rec in records:
